@@ -341,6 +341,8 @@ func c07Main(args []string) error {
 		}
 		fmt.Printf("{\"files\":[%s],\"events\":%d,\"rounds\":%d}\n", quoteJoin(files), events, rounds)
 		return nil
+	case "direct":
+		return c07DirectMain(args)
 	case "hooktrace":
 		prefix := flagVal(args, "out", "c07.hook")
 		rounds := flagInt(args, "rounds", 20)
